@@ -146,6 +146,7 @@ class Session:
         extra = {}
         T = shims.Thread
         settle = SETTLE
+        restore = None
         try:
             if kind == "start":
                 self.started += 1
@@ -167,6 +168,17 @@ class Session:
                 data, meta = self.wire(ev[1], ev[2] if len(ev) > 2 else None)
                 extra["sent"] = meta
                 self.peer.send(data)
+            elif kind == "backlog+msg":
+                # base requests arriving while the node has more queued for sending than one send batch takes
+                # (send-buffer limit lowered to 96 bytes for this step: one application message per batch)
+                from checks.c05 import make_message
+                restore = self.node.SU.SEND_BUFFER_MAXIMUM_SIZE
+                self.node.SU.SEND_BUFFER_MAXIMUM_SIZE = 96
+                data, meta = self.wire(ev[1], None)
+                extra["sent"] = meta
+                self.d.send_messages([make_message(8, i) for i in range(3)])
+                self.peer.send(data)
+                settle = SETTLE + 1.0
             elif kind == "msg+close":
                 # an inbound message and a local stop pending in the same tick
                 data, meta = self.wire(ev[1], None)
@@ -199,6 +211,8 @@ class Session:
                 raise
             extra["raised"] = (type(e).__name__, type(e).__module__ == X.__name__, str(e)[:80])
         self.tm.sleep(settle)
+        if restore is not None:
+            self.node.SU.SEND_BUFFER_MAXIMUM_SIZE = restore
         return self.snapshot(list(ev), extra)
 
     def wire(self, what, idk):
@@ -270,6 +284,8 @@ def judge(role, prev, o, history_ctx):
     errs = []
     ev = o["event"]
     kind = ev[0]
+    if kind == "backlog+msg":
+        kind = "msg"          # judged as the same inbound message(s); the backlog only changes the timing
     what = ev[1] if kind == "msg" else None
     ps = prev["state"] if prev else "Closed"
     ns = o["state"]
@@ -530,6 +546,7 @@ class FsmModel:
                 evs += [("msg", m) for m in MSGS_OPEN]
                 evs += [("msg", "app+dpr"), ("msg", "dwr+dpr")]
                 evs += [("msg+close", "app-req"), ("msg+close", "dwr"), ("msg+eof", "app-req"), ("msg+eof", "dwr")]
+                evs += [("backlog+msg", m) for m in ("dwr", "dwr+dwr", "dwr+app", "dwr+dpr")]
                 evs += [("send",), ("idle", 4.0 if self.watchdog > 10 else 2.0 * self.watchdog + 3.0)]
             elif state == "Closing":
                 evs += [("msg", m) for m in ("dpa", "dpa-echo", "dwr", "app-req", "dpr", "dwa", "dwa-echo")]
